@@ -477,6 +477,120 @@ fn main() {
         }
     }
 
+    // ---------------------------------------------------------------- math instructions, conversions into locals, intrinsics by name
+    let host_math = |f: &str, x: u64| -> u64 {
+        let v = black_box(f64::from_bits(x));
+        black_box(match f {
+            "sqrt" => v.sqrt(), "sin" => v.sin(), "cos" => v.cos(), "tan" => v.tan(), "asin" => v.asin(),
+            "acos" => v.acos(), "atan" => v.atan(), "log" => v.ln(), "log2" => v.log2(), "log10" => v.log10(),
+            "floor" => v.floor(), "ceil" => v.ceil(), _ => v.round(),
+        }).to_bits()
+    };
+    let fb = |x: f64| x.to_bits();
+    let mut mvals: Vec<u64> = set.clone();
+    mvals.extend_from_slice(&[fb(0.5), fb(-0.5), fb(0.3), fb(-0.3), fb(2.5), fb(-2.5), fb(3.5), fb(-3.5), fb(0.49999999999999994),
+        fb(-0.49999999999999994), fb(4503599627370495.5), fb(-4503599627370495.5), fb(4503599627370497.0), fb(1.0000000000000002),
+        fb(-1.0000000000000002), fb(3.141592653589793), fb(1.5707963267948966), fb(0.7853981633974483), fb(2.718281828459045),
+        fb(8.0), fb(1000.0), fb(0.001), fb(1e-300), fb(1e300), fb(-4.0), fb(2.0), fb(100.0)]);
+    let mfns = ["sqrt", "sin", "cos", "tan", "asin", "acos", "atan", "log", "log2", "log10", "floor", "ceil", "round"];
+    let n_math = if quick { 330 } else { 9000 };
+    for i in 0..n_math {
+        let fnm = mfns[i % mfns.len()];
+        let x = if ctx.rng.chance(2, 3) { *ctx.rng.pick(&mvals) } else { rand_bits(&mut ctx.rng) };
+        let Some(ox) = opd(x, sp) else { continue };
+        let c = host_math(fnm, x);
+        let has_method = matches!(fnm, "sqrt" | "floor" | "ceil" | "round");
+        let form = match ctx.rng.below(5) {
+            0 if ox.literal => "lit",
+            1 => "let",
+            2 => "fnval",
+            3 if has_method => "method",
+            _ => "var",
+        };
+        let tail = "println(r)\nprintln(r < 0.0)\n";
+        let src = match form {
+            "lit" => format!("let r = {fnm}({})\n{tail}", ox.expr),
+            // operand and destination are both locals (the optimizer's replace_first_arg / replace_dest arms)
+            "let" => format!("{}fn go(x: float) -> float {{\n  let y = x\n  let r = {fnm}(y)\n  r\n}}\nlet r = go({})\n{tail}", prologue(), ox.expr),
+            "fnval" => format!("{}let g = {fnm}\nlet x = {}\nlet r = g(x)\n{tail}", prologue(), ox.expr),
+            "method" => format!("{}let x = {}\nlet r = x.{fnm}()\n{tail}", prologue(), ox.expr),
+            _ => format!("{}let x = {}\nlet r = {fnm}(x)\n{tail}", prologue(), ox.expr),
+        };
+        jobs.push(Job {
+            req: format!("f64 math {fnm} {} {} #{form}", hex64(x), hex64(c)),
+            src, kind: "math", form,
+            what: format!("{fnm}({}) ({})", ox.expr, hex64(x)),
+            spec: Some(format!("ok {}", render_bits(c))),
+        });
+    }
+    for _ in 0..(if quick { 40 } else { 1200 }) {
+        let y = if ctx.rng.chance(1, 2) { *ctx.rng.pick(&mvals) } else { rand_bits(&mut ctx.rng) };
+        let x = if ctx.rng.chance(1, 2) { *ctx.rng.pick(&mvals) } else { rand_bits(&mut ctx.rng) };
+        let (Some(oy), Some(ox)) = (opd(y, sp), opd(x, sp)) else { continue };
+        let c = black_box(black_box(f64::from_bits(y)).atan2(black_box(f64::from_bits(x)))).to_bits();
+        let form = match ctx.rng.below(3) { 0 if oy.literal && ox.literal => "lit", 1 => "let", _ => "var" };
+        let tail = "println(r)\nprintln(r < 0.0)\n";
+        let src = match form {
+            "lit" => format!("let r = atan2({}, {})\n{tail}", oy.expr, ox.expr),
+            "let" => format!("{}fn go(y: float, x: float) -> float {{\n  let a = atan2(y * 1.0, x)\n  a\n}}\nlet r = go({}, {})\n{tail}", prologue(), oy.expr, ox.expr),
+            _ => format!("{}let y = {}\nlet x = {}\nlet r = atan2(y, x)\n{tail}", prologue(), oy.expr, ox.expr),
+        };
+        jobs.push(Job {
+            req: format!("f64 atan2 {} {} {} #{form}", hex64(y), hex64(x), hex64(c)),
+            src, kind: "atan2", form,
+            what: format!("atan2({}, {})", oy.expr, ox.expr),
+            spec: Some(format!("ok {}", render_bits(c))),
+        });
+    }
+    // float -> string -> (host parse): `string_from_float`, `.str()`, stored straight into a local
+    for _ in 0..(if quick { 60 } else { 2000 }) {
+        let x = if ctx.rng.chance(1, 2) { *ctx.rng.pick(&mvals) } else { rand_bits(&mut ctx.rng) };
+        let Some(ox) = opd(x, sp) else { continue };
+        let form = match ctx.rng.below(3) { 0 => "str-let", 1 => "intrinsic-let", _ => "concat" };
+        let src = match form {
+            "str-let" => format!("{}let x = {}\nlet s = x.str()\nprintln(s)\nprintln(x < 0.0)\n", prologue(), ox.expr),
+            "intrinsic-let" => format!("{}let x = {}\nlet s = string_from_float(x)\nprintln(s)\nprintln(x < 0.0)\n", prologue(), ox.expr),
+            _ => format!("{}let x = {}\nprintln(\"\" .. x)\nprintln(x < 0.0)\n", prologue(), ox.expr),
+        };
+        // a NaN prints as `NaN`: only NaN-ness survives (the text parses to the canonical +NaN, as `viaString` says)
+        let spec = if is_nan(x) { "ok nan+".to_string() } else { format!("ok {}", hex64(x)) };
+        jobs.push(Job { req: format!("f64 viastring {} #{form}", hex64(x)), src, kind: "tostr", form, what: format!("str({})", ox.expr), spec: Some(spec) });
+    }
+    // the arithmetic and comparison intrinsics called by NAME (emit_intrinsic arms, not the inlined operators)
+    for i in 0..(if quick { 100 } else { 3000 }) {
+        let a = if ctx.rng.chance(1, 2) { *ctx.rng.pick(&set) } else { rand_bits(&mut ctx.rng) };
+        let mut b = if ctx.rng.chance(1, 2) { *ctx.rng.pick(&set) } else { rand_bits(&mut ctx.rng) };
+        let (Some(oa), Some(_)) = (opd(a, sp), opd(b, sp)) else { continue };
+        if i % 2 == 0 {
+            let (name, iname) = [("add", "add_float"), ("sub", "subtract_float"), ("mul", "multiply_float"), ("div", "divide_float"), ("pow", "power_float")][(i / 2) % 5];
+            if name == "div" && ctx.rng.chance(1, 3) { b = if ctx.rng.chance(1, 2) { 0 } else { SIGN }; }
+            let ob = opd(b, sp).unwrap();
+            let c = host_arith(name, a, b);
+            let zero_div = name == "div" && (b & !SIGN) == 0;
+            let fv = ctx.rng.chance(1, 3);
+            let src = if fv {
+                format!("{}let f = {iname}\nlet r = f({}, {})\nprintln(r)\nprintln(r < 0.0)\n", prologue(), oa.expr, ob.expr)
+            } else {
+                format!("{}let a = {}\nlet r = {iname}(a, {})\nprintln(r)\nprintln(r < 0.0)\n", prologue(), oa.expr, ob.expr)
+            };
+            jobs.push(Job {
+                req: format!("f64 arith var {name} {} {} {} #{}", hex64(a), hex64(b), hex64(c), if fv { "intr-fnval" } else { "intr" }),
+                src, kind: "arith", form: if fv { "intr-fnval" } else { "intr" },
+                what: format!("{iname}({}, {})", oa.expr, ob.expr),
+                spec: Some(if zero_div { "err divzero".to_string() } else { format!("ok {}", render_bits(c)) }),
+            });
+        } else {
+            let ob = opd(b, sp).unwrap();
+            let lt = total_lt(a, b);
+            let gt = total_lt(b, a);
+            let eq = a == b;
+            let bit = |x: bool| if x { '1' } else { '0' };
+            let spec = format!("lt={} le={} gt={} ge={} eq={} ne={}", bit(lt), bit(lt || eq), bit(gt), bit(gt || eq), bit(eq), bit(!eq));
+            let src = format!("{}let a = {}\nlet b = {}\nprintln(less_than_float(a, b))\nprintln(less_than_or_equal_float(a, b))\nprintln(greater_than_float(a, b))\nprintln(greater_than_or_equal_float(a, b))\nprintln(equal_float(a, b))\nprintln(not equal_float(a, b))\n", prologue(), oa.expr, ob.expr);
+            jobs.push(Job { req: format!("f64 cmp {} {} #intr", hex64(a), hex64(b)), src, kind: "cmp", form: "intr", what: format!("intrinsics on {} {}", oa.expr, ob.expr), spec: Some(spec) });
+        }
+    }
+
     // ---------------------------------------------------------------- unary minus
     let mut negs: Vec<u64> = set.clone();
     for _ in 0..(if quick { 40 } else { 1500 }) {
@@ -510,12 +624,15 @@ fn main() {
     }
     for x in tis {
         let Some(ox) = opd(x, sp) else { continue };
-        let form = match ctx.rng.below(3) {
+        let form = match ctx.rng.below(4) {
             0 if ox.literal => "lit",
             1 => "method",
+            2 => "let",
             _ => "var",
         };
         let src = match form {
+            // operand and result are locals of a function (the optimizer's replace_dest arm for IntFromFloat)
+            "let" => format!("{}fn go(x: float) -> int {{\n  let y = x\n  let i = int_from_float(y)\n  i\n}}\nprintln(go({}))\n", prologue(), ox.expr),
             "lit" => format!("println(int_from_float({}))\n", ox.expr),
             "method" => format!("{}let x = {}\nprintln(x.to_int())\n", prologue(), ox.expr),
             _ => format!("{}let x = {}\nprintln(int_from_float(x))\n", prologue(), ox.expr),
@@ -569,6 +686,22 @@ fn main() {
                 Outcome::Error(k) => format!("err {k}"),
                 o => format!("other {}", o.tag()),
             },
+            "tostr" => {
+                // line 1: the text; line 2: the operand's sign (to render a NaN like the model does)
+                match &r.outcome {
+                    Outcome::Done => {
+                        let ls: Vec<&str> = r.out.lines().collect();
+                        if ls.len() != 2 { return format!("other bad-output {:?}", r.out); }
+                        match ls[0].parse::<f64>() {
+                            // the text `NaN` parses to the canonical quiet NaN: the sign is what the text carries (none)
+                            Ok(f) => format!("ok {}", render_bits(f.to_bits())),
+                            Err(_) => format!("other unparsable {:?}", ls[0]),
+                        }
+                    }
+                    Outcome::Error(k) => format!("err {k}"),
+                    o => format!("other {}", o.tag()),
+                }
+            }
             "fromint" => {
                 let s = render_float(&r);
                 s.strip_prefix("ok ").map(|x| x.to_string()).unwrap_or(s)
